@@ -271,7 +271,7 @@ def _hilbert3d(x, y, z, bit_length):
     return order
 
 
-def _get_cpu_list(bounding_box, lmax, levelmax, infofile, ncpu, ndim):
+def _get_cpu_list(bounding_box, lmax, levelmax, infofile, ncpu, ndim, levelmin=None):
     bound_key = _read_bound_key(infofile=infofile, ncpu=ncpu)
 
     xmin = bounding_box["xmin"]
@@ -281,7 +281,10 @@ def _get_cpu_list(bounding_box, lmax, levelmax, infofile, ncpu, ndim):
     zmin = bounding_box["zmin"]
     zmax = bounding_box["zmax"]
     dmax = max(xmax - xmin, ymax - ymin, zmax - zmin)
-    for ilevel in range(1, lmax + 1):
+    # A cell is stored by the cpu that owns its parent cell, which can be as coarse
+    # as levelmin - 1: do not search with cubes finer than that.
+    lsearch = lmax if levelmin is None else min(lmax, levelmin)
+    for ilevel in range(1, lsearch + 1):
         dx = 0.5**ilevel
         if dx < dmax:
             break
@@ -380,4 +383,5 @@ def hilbert_cpu_list(meta, scaling, select, infofile):
             infofile=infofile,
             ncpu=meta["ncpu"],
             ndim=meta["ndim"],
+            levelmin=meta.get("levelmin"),
         )
